@@ -331,7 +331,9 @@ def find_octopus_base(
             )
             next_lcas.extend(res)
         lcas = next_lcas[:]
-    return lcas
+    return _remove_redundant(
+        lookup_parents, lcas, lookup_stamp, parents_provider.shallows
+    )
 
 
 def can_fast_forward(repo: "BaseRepo", c1: ObjectID, c2: ObjectID) -> bool:
